@@ -25,7 +25,7 @@ PY
   git -C /repo apply "$d/patch.diff"
   res=""
   for c in $ids; do
-    out=$(cd /verif && timeout 1500 bin/check $c 2>&1); rc=$?
+    out=$(cd ${VERIF_ROOT:-/verif} && timeout 1500 bin/check $c 2>&1); rc=$?
     res="$res $c:rc=$rc"
     [ $rc -eq 1 ] && break
   done
